@@ -478,6 +478,7 @@ func (fc *FnCtx) entryState() *State {
 	st := &State{pc: tTrue, vars: map[types.Object]Val{}, ghost: map[string]Val{}, objs: map[int]Val{}, held: map[string]T{}}
 	st.heap = fc.fresh("H0", SHeap)
 	st.cheap = fc.fresh("C0", SHeap)
+	fc.mapsUsed = fc.lenient && fc.usesIntMaps()
 	st.nextR = fc.fresh("nextR0", SInt)
 	fc.axiom(lt(mkInt(0), st.nextR))
 	var all []*types.Var
